@@ -36,6 +36,10 @@ pub enum CStep {
     Send(Req),
     /// queue raw bytes (hostile or partial input)
     SendRaw(Vec<u8>),
+    /// send a strict prefix of a well-formed request (cut at this per-mille of its encoding),
+    /// wait until every earlier request has been answered, then send the rest: replies must not
+    /// depend on where the byte stream is cut, nor on a later request being complete
+    SendCut(Req, u32),
     /// pump until at most this many requests are unanswered
     Await(usize),
     /// pump until everything queued has been handed to the transport
